@@ -73,7 +73,8 @@ func immutableRef(t types.Type) bool {
 }
 
 type c18Sum struct {
-	writes []bool // function may write through parameter i (incl. receiver and free variables after params)
+	writes  []bool // function may write through parameter i (incl. receiver and free variables after params)
+	escapes []bool // function may store parameter i (a reference) into memory that outlives the call
 }
 
 func driveC18(w *World, c *Checker) {
@@ -226,7 +227,7 @@ func driveC18(w *World, c *Checker) {
 	// parameter-write summaries to a fixpoint
 	sums := map[*ssa.Function]*c18Sum{}
 	for _, fn := range fns {
-		sums[fn] = &c18Sum{writes: make([]bool, len(fn.Params)+len(fn.FreeVars))}
+		sums[fn] = &c18Sum{writes: make([]bool, len(fn.Params)+len(fn.FreeVars)), escapes: make([]bool, len(fn.Params)+len(fn.FreeVars))}
 	}
 	readOnlyExtern := func(name string) bool {
 		for _, p := range []string{"fmt.", "log.", "errors.", "strings.", "strconv.Format", "strconv.Itoa", "(*strings.Builder)", "bytes.NewReader", "(*bytes.Buffer).Bytes", "reflect.", "(reflect.", "(*bytes.Reader)"} {
@@ -267,6 +268,45 @@ func driveC18(w *World, c *Checker) {
 		}
 		return true, "external " + fn.String()
 	}
+	calleeEscapes := func(call *ssa.CallCommon, argIdx int) (bool, string) {
+		if call.IsInvoke() {
+			return true, "dynamic call " + call.Method.Name()
+		}
+		if b, ok := call.Value.(*ssa.Builtin); ok {
+			if b.Name() == "append" {
+				return argIdx > 0, "builtin append"
+			}
+			return false, ""
+		}
+		fn := call.StaticCallee()
+		if fn == nil {
+			return true, "call through a function value"
+		}
+		if s, ok := sums[fn]; ok {
+			if argIdx < len(s.escapes) {
+				return s.escapes[argIdx], fn.String()
+			}
+			return false, ""
+		}
+		if readOnlyExtern(fn.String()) {
+			return false, ""
+		}
+		return true, "external " + fn.String()
+	}
+	markEsc := func(fn *ssa.Function, rs rootset) bool {
+		ch := false
+		for r := range rs {
+			if strings.HasPrefix(r, "p") {
+				var i int
+				fmt.Sscanf(r, "p%d", &i)
+				if i < len(sums[fn].escapes) && !sums[fn].escapes[i] {
+					sums[fn].escapes[i] = true
+					ch = true
+				}
+			}
+		}
+		return ch
+	}
 	markParam := func(fn *ssa.Function, rs rootset) bool {
 		ch := false
 		for r := range rs {
@@ -289,8 +329,23 @@ func driveC18(w *World, c *Checker) {
 					switch in := ins.(type) {
 					case *ssa.Store:
 						changed = markParam(fn, rootsOf(fn, in.Addr)) || changed
+						if pointerLike(in.Val.Type()) {
+							// storing a parameter-derived reference: it escapes unless the target is a local that does not
+							if _, isAlloc := in.Addr.(*ssa.Alloc); !isAlloc || in.Addr.(*ssa.Alloc).Heap {
+								changed = markEsc(fn, rootsOf(fn, in.Val)) || changed
+							}
+						}
 					case *ssa.MapUpdate:
 						changed = markParam(fn, rootsOf(fn, in.Map)) || changed
+						if pointerLike(in.Value.Type()) {
+							changed = markEsc(fn, rootsOf(fn, in.Value)) || changed
+						}
+					case *ssa.Return:
+						for _, r := range in.Results {
+							if pointerLike(r.Type()) {
+								changed = markEsc(fn, rootsOf(fn, r)) || changed
+							}
+						}
 					case *ssa.Call:
 						for i, a := range in.Call.Args {
 							if !pointerLike(a.Type()) {
@@ -298,6 +353,9 @@ func driveC18(w *World, c *Checker) {
 							}
 							if wr, _ := calleeWrites(&in.Call, i); wr {
 								changed = markParam(fn, rootsOf(fn, a)) || changed
+							}
+							if es, _ := calleeEscapes(&in.Call, i); es {
+								changed = markEsc(fn, rootsOf(fn, a)) || changed
 							}
 						}
 						if in.Call.IsInvoke() {
@@ -363,6 +421,9 @@ func driveC18(w *World, c *Checker) {
 						if g, ok := hasGlobal(rootsOf(fn, a)); ok {
 							if wr, who := calleeWrites(&in.Call, i); wr {
 								report(fmt.Sprintf("package-level memory %s is handed to %s, which may write through it @%s", g, who, w.siteOf(fn, in)))
+							}
+							if es, who := calleeEscapes(&in.Call, i); es {
+								report(fmt.Sprintf("a reference to package-level memory %s is handed to %s, which may keep it in instance state @%s", g, who, w.siteOf(fn, in)))
 							}
 						}
 					}
